@@ -476,6 +476,19 @@ def r7_vec(text, fn, log):
             log.add('R7', fn, text[mk.start():j + 1], new)
             text = text[:mk.start()] + new + text[j + 1:]
             continue
+        # the newer `vec![a, b]` expansion (nightly): box_assume_init_into_vec_unsafe(write_box_via_move(Box::new_uninit(), [..]))
+        mk = re.search(r'::alloc::boxed::box_assume_init_into_vec_unsafe\(\s*::alloc::intrinsics::write_box_via_move\(\s*::alloc::boxed::Box::new_uninit\(\)\s*,\s*\[', m)
+        if mk:
+            ob = mk.end() - 1
+            cb = match_close(m, ob)
+            j = skip_ws(m, cb + 1, len(m))
+            assert m[j] == ')'
+            j = skip_ws(m, j + 1, len(m))
+            assert m[j] == ')'
+            new = 'vec![%s]' % text[ob + 1:cb]
+            log.add('R7', fn, text[mk.start():j + 1], new)
+            text = text[:mk.start()] + new + text[j + 1:]
+            continue
         return text
 
 
